@@ -219,5 +219,27 @@ theorem C11_legacy_empty_terminates :
     s.done = true ∧ connected s 0 = true ∧ s.wire = Chunked.terminator := by
   decide
 
+/-- The checked constructor: an accepted custom event has a type without CR and LF, so its `event:` field is one line
+    that ends exactly where the type ends — the type cannot end the field early or start another field; a type with
+    a line break is refused. -/
+theorem C11_custom_type_one_line (t d : Bytes) :
+    (custom? t d = none ↔ (13 ∈ t ∨ 10 ∈ t)) ∧
+    (∀ ev, custom? t d = some ev → ev = .custom t d ∧ (∀ b ∈ t, b ≠ 13 ∧ b ≠ 10) ∧
+      ∃ rest, encodeFixed ev = b!"event: " ++ t ++ 10 :: rest) := by
+  unfold custom?
+  by_cases h : (t.contains 13 || t.contains 10) = true
+  · simp only [h, if_true, true_iff]
+    refine ⟨?_, fun ev he => by cases he⟩
+    simpa [List.contains_eq_mem] using h
+  · simp only [h, if_false]
+    have h' : ¬ (13 ∈ t ∨ 10 ∈ t) := by simpa [List.contains_eq_mem] using h
+    refine ⟨by simp [h'], fun ev he => ?_⟩
+    cases he
+    refine ⟨rfl, fun b hb => ⟨fun e => h' (Or.inl (e ▸ hb)), fun e => h' (Or.inr (e ▸ hb))⟩, ?_⟩
+    simp only [encodeFixed, encode]
+    split
+    · exact ⟨b!"data: \n", by simp⟩
+    · exact ⟨((rustLines d).map fun l => b!"data: " ++ l ++ [10]).flatten, by simp⟩
+
 end C11
 end Servlin
